@@ -86,13 +86,14 @@ class Unit:
         res = []
         seen = set()
 
-        def walk(n, in_cls, in_templ_pattern):
+        def walk(n, in_cls, in_templ_pattern, targs=()):
             k = n.get('kind')
             if k in ('FunctionDecl', 'CXXMethodDecl', 'CXXConstructorDecl') and n.get('name') == name:
                 if (cls is None or in_cls == cls) and not in_templ_pattern:
                     has_body = any(c.get('kind') == 'CompoundStmt' for c in n.get('inner', []))
                     if (has_body or not want_body) and n['id'] not in seen:
                         seen.add(n['id'])
+                        n['_cls_targs'] = list(targs)
                         res.append(n)
             for c in n.get('inner', []):
                 if not isinstance(c, dict) or 'kind' not in c:
@@ -100,6 +101,9 @@ class Unit:
                 ck = c['kind']
                 nc = in_cls
                 ntp = in_templ_pattern
+                nta = targs
+                if ck in ('ClassTemplateSpecializationDecl',):
+                    nta = tuple(str(a.get('type', {}).get('qualType', a.get('value'))) for a in c.get('inner', []) if isinstance(a, dict) and a.get('kind') == 'TemplateArgument')
                 if ck in ('CXXRecordDecl', 'ClassTemplateSpecializationDecl', 'ClassTemplatePartialSpecializationDecl'):
                     nc = c.get('name')
                     if k == 'ClassTemplateDecl' and ck == 'CXXRecordDecl':
@@ -112,7 +116,7 @@ class Unit:
                     # first such child is the pattern, the others are specialisations
                     idx = [x for x in n['inner'] if x.get('kind') == ck].index(c)
                     ntp = in_templ_pattern or (idx == 0)
-                walk(c, nc, ntp)
+                walk(c, nc, ntp, nta)
 
         for d in self.docs:
             dk = d.get('kind')
@@ -282,6 +286,14 @@ class TypeMap:
             return dict(ctype=t, kind='scalar', ref=ref, ptr=ptr, const=const)
         if t in ('callback_mode', 'multi_channel_map'):
             return dict(ctype='int', kind='scalar', ref=ref, ptr=ptr, const=const)
+        m = re.match(r'^array<(.*),(\d+)>$', t)
+        if m:
+            e = self.info(m.group(1))
+            return dict(ctype=e['ctype'], kind='carray', elem=e, count=int(m.group(2)), ref=ref, ptr=ptr, const=const)
+        if t in ('basic_string<char>', 'string', 'basic_string<char,char_traits<char>>'):
+            return dict(ctype='vp_string', kind='opaque', ref=ref, ptr=ptr, const=const)
+        if t.startswith('__gnu_cxx::__normal_iterator<'):
+            return dict(ctype='vp_iter', kind='iter', ref=ref, ptr=ptr, const=const)
         m = re.match(r'^vector<(.*)>$', t)
         if m:
             e = self.info(m.group(1))
@@ -611,11 +623,26 @@ class Emitter:
             raise ExtractError('bare bound member function ' + name)
         self.fire('G10')
         sb = strip_all(base)
+        # inherited members live in the `base` sub-object (one level per DerivedToBase step)
+        pre = ''
+        b2 = base
+        while b2.get('kind') in ('ImplicitCastExpr', 'MaterializeTemporaryExpr', 'ExprWithCleanups') and len(kids(b2)) == 1:
+            if b2.get('castKind') in ('UncheckedDerivedToBase', 'DerivedToBase'):
+                pre += 'base.' * max(1, len(b2.get('path', [])))
+            b2 = kids(b2)[0]
+        name = pre + name
+        fd = self.u.by_id.get(n.get('referencedMemberDecl'))
+        isref = False
+        if fd is not None:
+            fq = fd.get('type', {}).get('qualType', '')
+            isref = fq.strip().endswith('&')
         if sb['kind'] == 'CXXThisExpr':
-            return '%s->%s' % (self.self_ptr, name)
-        if n.get('isArrow'):
-            return '(%s)->%s' % (self.emit(base), name)
-        return '(%s).%s' % (self.emit(base), name)
+            txt = '%s->%s' % (self.self_ptr, name)
+        elif n.get('isArrow'):
+            txt = '(%s)->%s' % (self.emit(base), name)
+        else:
+            txt = '(%s).%s' % (self.emit(base), name)
+        return '(*%s)' % txt if isref else txt
 
     # -- calls -----------------------------------------------------------------------------------------
     def arg(self, a, ptype):
@@ -626,11 +653,15 @@ class Emitter:
             # decide from the argument's own type: class/vector by pointer, scalars by value
             ai = self.tm.info(qtype(a))
             sa = strip_all(a)
+            if ai['ptr']:
+                return self.emit(a)
             if ai['kind'] in ('class', 'vec', 'engine', 'opaque'):
                 return self.addr_of(sa, ai)
             return self.emit(a)
         pi = self.tm.info(ptype)
         sa = strip_all(a)
+        if pi['ptr']:
+            return self.emit(a)
         if pi['kind'] in ('class', 'vec', 'engine', 'opaque'):
             return self.addr_of(sa, pi)
         if pi['ref'] and not pi['const']:
@@ -638,6 +669,10 @@ class Emitter:
         return self.emit(a)
 
     def addr_of(self, sa, ti):
+        if sa['kind'] in ('CXXTemporaryObjectExpr', 'CXXConstructExpr', 'InitListExpr') and ti['kind'] == 'vec' \
+                and not [a for a in kids(sa) if a['kind'] != 'CXXDefaultArgExpr']:
+            self.fire('G6')
+            return '(&(%s){0, 0, 0})' % ti['ctype']
         if sa['kind'] in ('CXXConstructExpr', 'CXXTemporaryObjectExpr', 'InitListExpr') or \
                 (sa['kind'] in ('CallExpr', 'CXXMemberCallExpr', 'CXXOperatorCallExpr') and sa.get('valueCategory') == 'prvalue'):
             raise ExtractError('temporary object passed as argument (%s)' % sa['kind'])
@@ -825,6 +860,9 @@ class Emitter:
         if op == 'operator[]' and bti['kind'] == 'vec':
             self.fire('G7')
             return '(%s).p[%s]' % (self.emit(args[0]), self.emit(args[1]))
+        if op == 'operator[]' and bti['kind'] == 'carray':
+            self.fire('G7')
+            return '(%s)[%s]' % (self.emit(args[0]), self.emit(args[1]))
         if op == 'operator=' and bti['kind'] == 'vec':
             self.fire('G7')
             return 'vp_%s_copy(&(%s), &(%s))' % (bti['ctype'], self.emit(args[0]), self.emit(strip_all(args[1])))
@@ -988,7 +1026,9 @@ class Emitter:
             if pi['kind'] in ('class', 'vec', 'engine', 'opaque'):
                 self.fire('G5')
                 const = 'const ' if (pi['const'] and pi['ref']) else ''
-                if pi['ref'] or pi['ptr']:
+                if pi['ptr']:
+                    plist.append('%s%s *%s' % ('const ' if pi['const'] else '', self.decl_ctype(pi), nm))
+                elif pi['ref']:
                     plist.append('%s%s *%s' % (const, self.decl_ctype(pi), nm))
                     self.refs[p['id']] = '(*%s)' % nm
                 else:
@@ -1052,6 +1092,8 @@ class Emitter:
             if e['kind'] == 'ImplicitValueInitExpr':
                 return '%s->%s = 0;\n' % (self.self_ptr, name)
             return '%s->%s = %s;\n' % (self.self_ptr, name, self.emit(ks[0]))
+        if fti['ptr']:
+            return '%s->%s = %s;\n' % (self.self_ptr, name, self.emit(ks[0]))
         if fti['ref']:
             return '%s->%s = &(%s);\n' % (self.self_ptr, name, self.emit(e))
         if e['kind'] in ('CXXConstructExpr', 'InitListExpr'):
@@ -1067,10 +1109,10 @@ class Emitter:
 # ----------------------------------------------------------------------------------------
 
 def postprocess(txt):
+    """G1/G3: comments removed (line structure preserved so that #line mapping stays exact)"""
     txt = re.sub(r'//[^\n]*', '', txt)
-    txt = re.sub(r'/\*(?!@).*?\*/', '', txt, flags=re.S)
+    txt = re.sub(r'/\*(?!@).*?\*/', lambda m: '\n' * m.group(0).count('\n'), txt, flags=re.S)
     txt = re.sub(r'\bstd::size_t\b', 'size_t', txt)
-    txt = re.sub(r'\n\s*\n+', '\n', txt)
     return txt
 
 
